@@ -1521,6 +1521,20 @@ impl FilterToIndexScanRule {
             return None;
         }
 
+        // Rows with a NULL in an indexed column have no index entry. A comparison never holds
+        // for NULL, so the index can only stand in for the table when every indexed column is
+        // bounded by the predicate.
+        let bounded = |position: usize| {
+            range_start
+                .iter()
+                .chain(range_end.iter())
+                .flatten()
+                .any(|bound| bound.col_idx == position)
+        };
+        if !(0..indexed_columns.len()).all(bounded) {
+            return None;
+        }
+
         let mut index_scan = IndexScanOp::new(
             scan.table_id,
             index_handle.id(),
